@@ -104,6 +104,30 @@ func (f *Frame) specCall(st *State, e *ast.CallExpr, kind string) []*Term {
 		a := f.expr(st, e.Args[0])
 		b := f.expr(st, e.Args[1])
 		return []*Term{Eq(a, b)}
+	case kind == "is" || kind == "as":
+		var id *ast.Ident
+		switch fx := unparen(e.Fun).(type) {
+		case *ast.IndexExpr:
+			id, _ = unparen(fx.X).(*ast.Ident)
+		case *ast.Ident:
+			id = fx
+		}
+		if id == nil {
+			f.fail(e, "is/as: needs an explicit type argument")
+		}
+		inst, ok := f.info.Instances[id]
+		if !ok || inst.TypeArgs.Len() != 1 {
+			f.fail(e, "is/as: needs an explicit type argument")
+		}
+		tt := inst.TypeArgs.At(0)
+		v := f.expr(st, e.Args[0])
+		if v.Sort != SIfc {
+			v = f.convertTo(st, v, f.typeOf(e.Args[0]), types.NewInterfaceType(nil, nil))
+		}
+		if kind == "is" {
+			return []*Term{Eq(ifaceTag(v), c.tagOf(tt))}
+		}
+		return []*Term{f.unbox(st, v, tt)}
 	case kind == "has":
 		m := f.expr(st, e.Args[0])
 		mt, ok := types.Unalias(f.typeOf(e.Args[0])).Underlying().(*types.Map)
@@ -195,6 +219,14 @@ func (f *Frame) specCall(st *State, e *ast.CallExpr, kind string) []*Term {
 		return []*Term{c.strLt(f.expr(st, e.Args[0]), f.expr(st, e.Args[1]))}
 	case kind == "strLower":
 		return []*Term{c.strLower(f.expr(st, e.Args[0]))}
+	case kind == "lastNow":
+		ts := c.sortOf(f.typeOf(e))
+		h := c.heapGet(st, "G!lastNow", ArrSort(SInt, ts))
+		return []*Term{Select(h, IntLit(0))}
+	case kind == "timeBefore":
+		a := f.expr(st, e.Args[0])
+		b := f.expr(st, e.Args[1])
+		return []*Term{c.timeLt(a, b)}
 	case kind == "fresh":
 		// fresh(v): the object v (value in the current state) was not yet allocated in the old state
 		if f.specOld == nil {
@@ -756,7 +788,7 @@ func (f *Frame) checkFrame(st *State, entry *State, ct *Contract, ri int, where 
 		if !ok {
 			old = c.heapInit(h)
 		}
-		if same(cur, old) || h == "ALLOC" || strings.HasPrefix(h, "IT!") || strings.HasPrefix(h, "TX!") {
+		if same(cur, old) || h == "ALLOC" || strings.HasPrefix(h, "IT!") || strings.HasPrefix(h, "TX!") || h == "G!lastNow" {
 			continue
 		}
 		whole := false
